@@ -93,6 +93,9 @@ def solve(A, y, fn, cond_limit):
         raise IllConditioned("no free clp")
     if A.shape[0] < A.shape[1]:
         raise IllConditioned("underdetermined")
+    if not (np.all(np.isfinite(A)) and np.all(np.isfinite(y))):
+        # (LAPACK's dgelsd - numpy.linalg.lstsq - does not return on non-finite input)
+        raise IllConditioned("non-finite linear problem")
     cn = np.linalg.norm(A, axis=0)
     if cn.min() < 1e-100 or cn.max() > 1e100:
         # columns whose squared norm leaves the double range (an optimiser step to a rate where the basis function underflows):
